@@ -191,7 +191,12 @@ def outcomes(f):
         out.setdefault('Err:' + var, set()).update(frozenset(c.items()) for c in cxs)
     # dense writes: stores into an indexed f64 slice that is the returned box
     for bi, st, pl, rhs in q.stores(f):
-        if st['pl']['p'] and st['pl']['p'][-1]['k'] == 'index' and st['pl']['ty'] == 'f64':
+        via_index_mut = False
+        if st['pl']['p'] and st['pl']['ty'] == 'f64' and [p_['k'] for p_ in st['pl']['p']] == ['deref']:
+            # `dense[i] = w` on a Vec<f64>: a store through the reference IndexMut::index_mut hands out
+            ds_ = f.defs.get(st['pl']['l'], [])
+            via_index_mut = len(ds_) == 1 and ds_[0][0] == 'call' and short(ds_[0][3]['callee'].get('path') or ds_[0][3]['callee'].get('def') or '') == 'index_mut'
+        if st['pl']['p'] and (st['pl']['p'][-1]['k'] == 'index' or via_index_mut) and st['pl']['ty'] == 'f64':
             cxs = contexts_(bi, want)
             out.setdefault('write', set()).update(frozenset(c.items()) for c in cxs)
     # seen flags
